@@ -17,7 +17,8 @@ RULE = ("generic_message over: service 0..0x7F (int and bytes), class/instance/a
         "reply data / status chosen by the target; helpers get_module_info(slot), get_plc_name, get_plc_info, get/set_plc_time "
         "(0..year 9999 in microseconds); get_module_info on an empty slot; typed replies too short for the data type; re-open after a close() "
         "whose Forward Close the target refused (connection timed out on the PLC); Unconnected Send refused by the router itself (reply service 0xD2: falsy Tag "
-        "with the status text); get_plc_name() again after the controller's program name changed; set_plc_time() without an argument. Oracle: the target's router journal entry (transport, service, "
+        "with the status text); get_plc_name() again after the controller's program name changed; set_plc_time() without an argument; get_plc_time() answered with success replies that hold no value (attribute status, cut, empty) or bytes after the value "
+        "(never a time from nothing, never a foreign exception, a reported time is the controller's). Oracle: the target's router journal entry (transport, service, "
         "path, data, route) equals the request, the raw request path uses the segment widths the caller gave as bytes; Tag value equals the "
         "target's reply data (raw or reference-decoded). distinct = (transport, route_path form, "
         "path widths, data-length parity, reply class) evaluated")
@@ -475,6 +476,26 @@ def run(ctx):
             if st != "ok" or tg_ or not tg_.error:
                 res.violation("helper-refusal", f"get_plc_time() with the clock object refusing (0x0F) -> {tg_!r:.200}", None)
             ctl.force_status = None
+            # "any reply data": a success-status answer of the clock object that is not the 6 + 8 bytes of one attribute with its
+            # value.  Without a value (attribute-level status 0x14 / 0x09, cut after the header, empty) there is no time to report:
+            # never a truthy Tag.  With bytes after the value (a further attribute, padding) a time is reported only if it is the
+            # controller's.
+            head_ = (1).to_bytes(2, "little") + (0x0B).to_bytes(2, "little")
+            val_ = ctl.clock_us.to_bytes(8, "little")
+            for lbl_, data_ in [("no-value:attribute-status", head_ + b"\x14\x00"), ("no-value:cut", head_ + b"\x00\x00" + val_[:rng.choice([1, 4, 7])]),
+                                ("no-value:empty", b""), ("no-value:count-only", b"\x01\x00"),
+                                ("trailing", head_ + b"\x00\x00" + val_ + bytes(rng.randrange(1, 256) for _ in range(rng.choice([1, 2, 4, 12]))))]:
+                ctl.force_status = lambda rq, d=data_: (0, (), d) if rq.logical("class") == 0x8B else None
+                st, tg_ = b.call("get_plc_time", drv.get_plc_time)
+                ctl.force_status = None
+                res.ev()
+                res.seen("get_plc_time-reply-shape", lbl_)
+                if st == "exc" and not isinstance(tg_, p.PycommError):
+                    res.violation("get_plc_time-reply-shape:foreign-exception", f"get_plc_time() with a success reply of {len(data_)} bytes ({lbl_}) raised {tg_!r:.160}", {"reply": data_})
+                elif st == "ok" and tg_ and lbl_.startswith("no-value"):
+                    res.violation("get_plc_time-reply-shape:time-from-nothing", f"get_plc_time() with a success reply that holds no time value ({lbl_}: {data_.hex()}) -> {tg_!r:.200}", {"reply": data_})
+                elif st == "ok" and tg_ and isinstance(tg_.value, dict) and tg_.value.get("microseconds") != ctl.clock_us:
+                    res.violation("get_plc_time-reply-shape:wrong-time", f"get_plc_time() with bytes after the value ({data_.hex()}) reports {tg_.value.get('microseconds')!r}; the controller's clock is {ctl.clock_us}", {"reply": data_})
             b.call("close", drv.close)
             b.log.drain_into(res, {"C14"})
             b.close()
